@@ -123,6 +123,29 @@ pub fn exec(op: &str, t: &mut Toks) -> Option<String> {
     match op {
         "encode" => {
             let d = read_msgdesc(t)?;
+            // A label of more than 63 bytes is outside the modelled domain: the encoder cuts
+            // it (repair of the `assert!` in write_utf8); only "does not panic" is observed.
+            let long_label = {
+                let mut names: Vec<&str> = d.questions.iter().map(|q| q.0.as_str()).collect();
+                for r in d.answers.iter().map(|a| &a.0).chain(d.authorities.iter()).chain(d.additionals.iter()) {
+                    names.push(r.name.as_str());
+                    match &r.rdata {
+                        RDataView::Ptr(n) => names.push(n.as_str()),
+                        RDataView::Srv { host, .. } => names.push(host.as_str()),
+                        _ => {}
+                    }
+                }
+                names.iter().any(|n| {
+                    parser::parse_escaped_name(n.strip_suffix('.').unwrap_or(n)).iter().any(|l| l.len() > 63)
+                })
+            };
+            if long_label {
+                return Some(match encode_at_created(&d) {
+                    None => "long-label panic".to_string(),
+                    Some(None) => return None,
+                    Some(Some(_)) => "long-label ok".to_string(),
+                });
+            }
             let pkts = match encode_at_created(&d) {
                 None => return Some("panic".to_string()),
                 Some(None) => return None,
